@@ -292,11 +292,12 @@ func (s *Schema) collectUserTypes() {
 		return
 	}
 
-	s.usedUserTypes = collectUserTypes(node)
+	s.usedUserTypes = collectUserTypes(node, s.inner.TypesList())
 }
 
-func collectUserTypes(node internalSchema.Node) []string {
+func collectUserTypes(node internalSchema.Node, types map[string]internalSchema.Type) []string {
 	c := &userTypesCollector{
+		types:            types,
 		alreadyProcessed: map[string]struct{}{},
 	}
 	c.collect(node)
@@ -304,6 +305,9 @@ func collectUserTypes(node internalSchema.Node) []string {
 }
 
 type userTypesCollector struct {
+	// types the types of the schema, to look into the unnamed types made
+	// from the rule-sets of an "or" rule.
+	types            map[string]internalSchema.Type
 	alreadyProcessed map[string]struct{}
 	userTypes        []string
 }
@@ -312,10 +316,11 @@ func (c *userTypesCollector) collect(node internalSchema.Node) {
 	c.collectUserTypesFromTypesListConstraint(node)
 	c.collectUserTypesFromTypeConstraint(node)
 	c.collectUserTypesFromAllOfConstraint(node)
+	// Not only an object node: the rule-set of an "or" rule can have this rule.
+	c.collectUserTypesFromAdditionalPropertiesOfConstraint(node)
 
 	switch n := node.(type) {
 	case *internalSchema.ObjectNode:
-		c.collectUserTypesFromAdditionalPropertiesOfConstraint(node)
 		c.collectUserTypesObjectNode(n)
 
 	case *internalSchema.ArrayNode:
@@ -347,6 +352,10 @@ func (c *userTypesCollector) collectUserTypesFromTypesListConstraint(node intern
 	for _, name := range list.Names() {
 		if name[0] == '@' {
 			c.addType(name)
+		} else if t, ok := c.types[name]; ok {
+			// The unnamed type made from a rule-set of the "or" rule:
+			// {type: "@foo", nullable: true}.
+			c.collect(t.Schema().RootNode())
 		}
 	}
 }
